@@ -46,6 +46,15 @@ fn harness_error(msg: &str) -> ! {
 /// Build the system under test from the repository's working tree and lay out
 /// a bin directory with the redo binary and its ten personality links.
 fn build_sut() -> PathBuf {
+    // PSIM_SUT_BIN=<redo binary>: use a binary already built from a scratch
+    // tree (seeded-change trials); only honoured together with PSIM_REPO so
+    // that registered checks always rebuild /repo's working tree.
+    if let Ok(b) = std::env::var("PSIM_SUT_BIN") {
+        if repo_dir() != Path::new("/repo") {
+            let tag = format!("sut-{:x}bin", rng::hash_str(&b));
+            return install_sut(Path::new(&b), &target_dir().join(tag));
+        }
+    }
     let repo = repo_dir();
     let tag = if repo == Path::new("/repo") {
         "sut".to_string()
@@ -80,6 +89,11 @@ fn build_sut() -> PathBuf {
     }
     let bin = tdir.join("debug").join("redo");
     let sutbin = target_dir().join(format!("{}bin", tag));
+    install_sut(&bin, &sutbin)
+}
+
+fn install_sut(bin: &Path, sutbin: &Path) -> PathBuf {
+    let sutbin = sutbin.to_path_buf();
     std::fs::create_dir_all(&sutbin).ok();
     let dst = sutbin.join("redo");
     let need_copy = match (std::fs::metadata(&bin), std::fs::metadata(&dst)) {
@@ -276,6 +290,7 @@ fn run_check(
     let mut known_hits: BTreeMap<String, u64> = BTreeMap::new();
     let mut total_violations = 0u64;
     let mut kinds: BTreeMap<String, u64> = BTreeMap::new();
+    let mut known_examples: BTreeSet<String> = BTreeSet::new();
     let mut hashes: BTreeMap<u64, u64> = BTreeMap::new();
     for r in &results {
         if let Some(e) = &r.harness_error {
@@ -315,6 +330,7 @@ fn run_check(
             *kinds.entry(key).or_insert(0) += 1;
             if let Some(f) = match_finding(&findings, v) {
                 *known_hits.entry(f.id.clone()).or_insert(0) += 1;
+                known_example(id, seed, &f.id, r.index, r.hash, r.case.as_ref(), v, &mut known_examples);
             } else {
                 unknown.push((r.clone(), v.clone()));
             }
@@ -328,6 +344,7 @@ fn run_check(
             *kinds.entry(key).or_insert(0) += sf.count;
             if let Some(f) = match_finding(&findings, &sf.violation) {
                 *known_hits.entry(f.id.clone()).or_insert(0) += sf.count;
+                known_example(id, seed, &f.id, r.index, sf.hash, Some(&sf.case), &sf.violation, &mut known_examples);
             } else {
                 let mut rr = r.clone();
                 rr.case = Some(sf.case.clone());
@@ -437,7 +454,12 @@ fn run_check(
         "wall_s": wall,
         "violations": total_violations,
     });
-    let evdir = verif_dir().join("evidence");
+    // runs against a scratch tree (PSIM_REPO) never touch the committed evidence
+    let evdir = if repo_dir() == Path::new("/repo") {
+        verif_dir().join("evidence")
+    } else {
+        target_dir().join("scratch-evidence")
+    };
     std::fs::create_dir_all(&evdir).ok();
     std::fs::write(
         evdir.join(format!("{}.json", id)),
@@ -469,6 +491,42 @@ fn run_check(
         }
     }
     exit
+}
+
+/// Keep one (unminimised) replay file per known finding reproduced in this
+/// batch under replays/<ID>/known-<finding>.json, as a current example.
+#[allow(clippy::too_many_arguments)]
+fn known_example(
+    id: &str,
+    seed: u64,
+    finding: &str,
+    index: u64,
+    hash: u64,
+    case: Option<&Case>,
+    v: &Violation,
+    done: &mut BTreeSet<String>,
+) {
+    let case = match case {
+        Some(c) => c,
+        None => return,
+    };
+    if !done.insert(finding.to_string()) {
+        return;
+    }
+    let dir = verif_dir().join("replays").join(id);
+    std::fs::create_dir_all(&dir).ok();
+    let rf = ReplayFile {
+        property: id.to_string(),
+        violation: v.clone(),
+        verif_seed: seed,
+        run_index: index,
+        expected_hash: format!("{:016x}", hash),
+        case: case.clone(),
+    };
+    let _ = std::fs::write(
+        dir.join(format!("known-{}.json", finding)),
+        serde_json::to_string_pretty(&rf).unwrap(),
+    );
 }
 
 /// Shrink a failing case while the same violation kind persists.
